@@ -414,6 +414,98 @@ pub fn spaces(tier: Tier) -> Vec<Space> {
             }
         }));
     }
+    // 7. chosen s: boundary values of the INTERMEDIATE quantity s are reached by solving d = (s*k - z) / r for the private key
+    //    (s = 2^j, (n-1)/2 - 2^j, (n-1)/2 - (2^j - 1) for every j, and the ends of the low-S range); the library must
+    //    produce exactly (r, s) with that key and nonce and every library verifier must accept it
+    {
+        let n = secp::n();
+        let half = secp::half_n();
+        let mut targets: Vec<BigUint> = vec![BigUint::from(1u32), BigUint::from(2u32), half.clone(), &half - 1u32];
+        for j in 0..=255u32 {
+            let pw = BigUint::from(1u32) << j;
+            if pw <= half {
+                targets.push(pw.clone());
+                targets.push(&half - &pw);
+                targets.push(&half - (&pw - 1u32));
+            }
+        }
+        let targets = Arc::new(targets);
+        let nt = targets.len() as u64;
+        v.push(Space::new("chosen-s", nt * 2 * 2 * 2, move |case, acc| {
+            let c = coords(case.idx, &[nt, 2, 2, 2]);
+            let s_target = &targets[c[0] as usize];
+            let k = if c[1] == 0 { BigUint::from(2u32) } else { secp::from_be(&hex::decode("c0ffee254729296a45a3885639ac7e10f9d54979a0f5b2d1e8b1c4a7d3f6e5b9").unwrap()) };
+            let hash = c[2];
+            let compressed = c[3] == 0;
+            let msg = b"chosen-s".to_vec();
+            let digest = digest_of(hash, &msg);
+            let z = z_of(&digest) % &n;
+            let r = match secp::mul_g(&k) {
+                Point::Affine { x, .. } => x % &n,
+                _ => return,
+            };
+            let rinv = r.modpow(&(&n - 2u32), &n);
+            let d = ((s_target * &k + &n - &z) % &n) * rinv % &n;
+            if d == BigUint::from(0u32) {
+                return;
+            }
+            acc.evaluations += 1;
+            acc.transitions += 1;
+            let q = secp::mul_g(&d);
+            let input = json!({"key": hx(&secp::be32(&d)), "nonce": hx(&secp::be32(&k)), "compressed": compressed, "msg": hx(&msg), "hash": hash, "s_target": hx(&secp::be32(s_target))});
+            match guard(|| ECDSA::sign_with_k(&lib_key(&d, compressed), &lib_key(&k, true), &msg, signing_hash(hash))) {
+                Ok(Ok(sig)) => check_signature(acc, case, "sign_with_k", &input, &sig, &q, &d, compressed, Some((&msg, hash)), &digest, Some((r, s_target.clone()))),
+                Ok(Err(e)) => acc.violate("C05/sign_with_k/kind=spurious-error", case.idx, case.json(input), e.to_string()),
+                Err(p) => acc.violate(format!("C05/sign_with_k/kind=panic@{}", panic_site(&p)), case.idx, case.json(input), p),
+            }
+        }));
+    }
+    // 8. ECDH where the shared point's x coordinate lies in [n, p): the peer key is constructed as a^-1 * T for the first
+    //    curve points T with x >= n (counting up from n) and the last ones below p
+    {
+        let (n, pp) = (secp::n(), secp::p());
+        let mut xs: Vec<(BigUint, BigUint)> = vec![];
+        let mut x = n.clone();
+        while xs.len() < 6 {
+            if let Some(y) = secp::lift_x(&x, false) {
+                xs.push((x.clone(), y));
+            }
+            x += 1u32;
+        }
+        let mut x = &pp - 1u32;
+        while xs.len() < 12 {
+            if let Some(y) = secp::lift_x(&x, true) {
+                xs.push((x.clone(), y));
+            }
+            x -= 1u32;
+        }
+        let xs = Arc::new(xs);
+        let kt = kt.clone();
+        v.push(Space::new("ecdh-x-above-n", 12 * 3 * 2, move |case, acc| {
+            let c = coords(case.idx, &[12, 3, 2]);
+            let (x, y) = &xs[c[0] as usize];
+            let a = &kt.d[[1usize, 3, 8][c[1] as usize] % kt.d.len()];
+            let compressed = c[2] == 0;
+            let ainv = a.modpow(&(&n - 2u32), &n);
+            let b = secp::mul(&ainv, &Point::Affine { x: x.clone(), y: y.clone() });
+            let enc = secp::encode_point(&b, compressed);
+            acc.evaluations += 1;
+            acc.transitions += 1;
+            acc.traces += 1;
+            acc.nontrivial_structural += 1;
+            let input = json!({"a": hx(&secp::be32(a)), "peer_public_key": hx(&enc), "expected_shared_x": hx(&secp::be32(x))});
+            match guard(|| ECDH::derive_shared_key(&lib_key(a, true), &PublicKey::from_bytes(&enc)?)) {
+                Ok(Ok(ab)) => {
+                    acc.outcome(&ab[..2]);
+                    if ab != secp::be32(x).to_vec() {
+                        acc.violate("C05/derive_shared_key/kind=differs-from-reference-point", case.idx, case.json(input), format!("library={} reference x={}", hx(&ab), hx(&secp::be32(x))));
+                    }
+                }
+                Ok(Err(e)) => acc.violate("C05/derive_shared_key/kind=spurious-error", case.idx, case.json(input), e.to_string()),
+                Err(p) => acc.violate(format!("C05/derive_shared_key/kind=panic@{}", panic_site(&p)), case.idx, case.json(input), p),
+            }
+        }));
+    }
     v
 }
 
